@@ -187,13 +187,10 @@ class IrToWasmCompiler:
         self.add_definition(
             components.Memory(0, 10, None)
         )  # Start with 10 pages?
-        for memid, addr, data in self.initial_memory:
+        for data_id, (memid, addr, data) in enumerate(self.initial_memory):
             offset = [components.Instruction("i32.const", addr)]
-            self.add_definition(
-                components.Data(
-                    components.Ref("memory", index=memid), offset, data
-                )
-            )
+            mode = components.Ref("memory", index=memid), offset
+            self.add_definition(components.Data(data_id, mode, bytes(data)))
 
         if self.pointed_functions:
             indexes = self.pointed_functions
